@@ -167,6 +167,11 @@ func TestResponderRetransmits(t *testing.T) {
 		streams := make([]*boundStream, nStreams)
 		bind := func(s *boundStream) {
 			s.sink = &kit.RTPSink{}
+			if !disableCopy && rapid.IntRange(0, 2).Draw(t, "writerStampsExtension") == 0 { // (with DisableCopy the stored header is the one that travels on, by design)
+				// the next writer adds a header extension to every header it is handed (a transport-cc header-extension interceptor below
+				// the responder): what the responder stored is the packet as the application sent it
+				s.sink.StampExtension = 9
+			}
 			s.writer = ic.BindLocalStream(s.info, s.sink)
 			s.bound = true
 			s.model = &streamModel{size: size, rtx: rtx && s.info.SSRCRetransmission != 0 && s.info.PayloadTypeRetransmission != 0,
